@@ -194,7 +194,7 @@ func (inc *incarnation) chooseType(ctr *arvados.Container) (arvados.InstanceType
 	it, err := ChooseInstanceType(inc.s.cluster, ctr)
 	inc.s.checkChoice(ctr, it, err, "queue")
 	if ac := inc.s.api.ctrs[ctr.UUID]; ac != nil && err == nil {
-		ac.chosen = true // idempotent flag; written by the queue's poll goroutine only
+		_ = ac
 	}
 	return it, err
 }
@@ -353,7 +353,7 @@ func (p *poolProxy) StartContainer(it arvados.InstanceType, ctr arvados.Containe
 	w.Probe("start-decided")
 	// ---- C16 order clause 1 (trace invariant within the pass)
 	if hp, refused := ps.refused[it.Name]; refused && inSnap && se.prio < hp {
-		w.Violation("C16/lower-priority-started-after-higher-was-refused",
+		s.viol("C16", "lower-priority-started-after-higher-was-refused", "",
 			"runQueue pass %d of dispatcher %d: container %s (priority %d, type %s) was started after the higher-priority Locked container %s (priority %d, same type) had been refused a worker in the same pass",
 			ps.n, inc.n, uuid, se.prio, it.Name, ps.refusedU[it.Name], hp)
 	}
@@ -379,12 +379,12 @@ func (p *poolProxy) StartContainer(it arvados.InstanceType, ctr arvados.Containe
 			}
 		}
 		ac := s.api.ctrs[uuid]
-		w.Violation("C14/start-without-knowing-lock-held",
+		s.viol("C14", "start-without-knowing-lock-held", "",
 			"dispatcher %d started container %s (queue entry of this pass: state=%s priority=%d) but at the API boundary it %s; api history: %s",
 			inc.n, uuid, se.state, se.prio, told, strings.Join(ac.hist, ", "))
 	}
 	if !inSnap || se.state != arvados.ContainerStateLocked || se.prio <= 0 {
-		w.Violation("C14/start-of-container-not-locked-in-own-queue",
+		s.viol("C14", "start-of-container-not-locked-in-own-queue", "",
 			"dispatcher %d started container %s whose entry in the queue snapshot of this pass was state=%q priority=%d (present=%v)", inc.n, uuid, se.state, se.prio, inSnap)
 	}
 	return ok
@@ -416,7 +416,7 @@ func (inc *incarnation) closePass() {
 				continue
 			}
 			if ps.ents[u2].prio < ps.ents[u1].prio {
-				w.Violation("C16/unlocked-at-quota-while-lower-priority-keeps-lock",
+				inc.s.viol("C16", "unlocked-at-quota-while-lower-priority-keeps-lock", "",
 					"runQueue pass %d of dispatcher %d: waiting Locked container %s (priority %d) was unlocked while the strictly lower-priority waiting Locked container %s (priority %d) kept its lock",
 					ps.n, inc.n, u1, ps.ents[u1].prio, u2, ps.ents[u2].prio)
 				return
